@@ -40,6 +40,15 @@ func runC08(r *vk.Run) {
 		r.Inconclusive(err.Error())
 		return
 	}
+	// the limit convention on the smallest input, before anything else relies on it
+	r.Phase("probe", 1, func(c *vk.Case) {
+		c.Eval(7)
+		if m := probeLimits(); m != "" {
+			c.Fail("", m, map[string]any{"query": `{app="x"}`, "records": 1})
+			return
+		}
+		c.Count("limit_probe", 1)
+	})
 	formats := []string{"json", "logfmt", "access", "packed", "plain", "mixed"}
 	r.Phase("partition", r.N(1500, 400000), func(c *vk.Case) {
 		rng := c.Rng
@@ -213,7 +222,9 @@ func runC08(r *vk.Run) {
 		}
 		written := map[recKey]int{}
 		idxOf := map[string]string{}
+		byID := map[string]CSpec{}
 		for _, cs := range inv {
+			byID[cs.ID] = cs
 			idxOf[cs.ID] = cs.Labels["idx"]
 			for j, f := range cs.Frames {
 				if j > 0 && f.TS < cs.Frames[j-1].TS {
@@ -265,6 +276,21 @@ func runC08(r *vk.Run) {
 					return
 				}
 				seenSets[k] = true
+				// a stream is a container here: it carries that container's labels and nothing else
+				if cs, ok := byID[st.Labels["container_id"]]; ok {
+					wantL, _, _ := expectedContainerLabels3(cs)
+					if rewrite {
+						wantL["idx"] += "-x"
+					}
+					if !msg {
+						delete(st.Labels, "msg")
+					}
+					if !mapsEqual(wantL, st.Labels) {
+						c.Fail("", fmt.Sprintf("limit %d: stream %s does not carry exactly the labels of container %s: %s (query %s)", L, k, cs.ID, labelKey(wantL), ctrQuery), det)
+						return
+					}
+					c.Count("container_stream_label_sets_checked", 1)
+				}
 				for i, e := range st.Entries {
 					if want := idxOf[st.Labels["container_id"]]; rewrite && st.Labels["idx"] != want+"-x" || !rewrite && st.Labels["idx"] != want {
 						c.Fail("", fmt.Sprintf("limit %d: stream of container %s carries idx=%q (query %s)", L, st.Labels["container_id"], st.Labels["idx"], ctrQuery), det)
